@@ -7,10 +7,14 @@ import (
 	"testing"
 
 	"github.com/ja7ad/otp/internal/verifh"
+	"github.com/ja7ad/otp/internal/verifrt"
 	"pgregory.net/rapid"
 )
 
-func TestMain(m *testing.M) { verifh.Main(m, "B") }
+func TestMain(m *testing.M) {
+	verifrt.StrictSpawn = true
+	verifh.Main(m, "B")
+}
 
 func TestSim(t *testing.T) {
 	prop := verifh.Prop()
